@@ -19,6 +19,7 @@
    unblock <k> <ok|err>                               a blocked SendMessage returns
    readerr <k>                                        ReadFrom on socket k fails
    sleep <ms> <g1/g2/...>                             per tick in the interval: session ids in the order closed ("." none)
+   slowlost                                           connection loss with slow Close() calls across the next sweep (census only)
    connlost <order>                                   ReceiveMessage fails; ids in the order cleanup closed them
    Output: events (without CheckUDP calls) | tbl=<sid@last,…> open=<k,…> loops=<n> rl=<pc> sw=<pc>                                -/
 import Hy.Gen.Core
@@ -299,6 +300,19 @@ def step (d : DS) (line : String) : DS × String :=
       let d1 := doTicks d (ticksIn d.now ms) gs
       flush { d1 with now := d.now + ms }
     | _, _ => (d, "bad-op")
+  | ["slowlost"] =>
+    -- connection loss whose final cleanup overlaps the next sweep: whoever closes what, the census is that
+    -- of a connection loss; the clock ends at the next sweep tick
+    if d.s.rl == .done then (let r := flush d; (r.1, "slowl | " ++ summary r.1.s)) else
+    if d.s.rl != .idle then (d, "busy") else
+    if intervalMs = 0 then (d, "bad-op") else
+    let c := cfg d
+    let s := run c d.s [.connLost, .recvErr]
+    let pend : List Nat := match s.rl with | .stopping p => p | _ => []
+    let s := pend.foldl (fun s i => Hy.UdpSession.step c (Hy.UdpSession.step c s (.rlStopClose i)) (.exitB i)) s
+    let s := run c s [.rlStopDone, .swStop]
+    let r := flush (settle { d with s := s, now := (d.now / intervalMs + 1) * intervalMs })
+    (r.1, "slowl | " ++ summary r.1.s)
   | ["connlost", order] =>
     match parseIds order with
     | some ids =>
